@@ -1285,6 +1285,14 @@ func (e *Enc) mapHeaps(mt *types.Map) (pn string, ps Sort, vn string, vs Sort) {
 	return "HMp_" + id, arraySort(SRef, arraySort(ks, SBool)), "HMv_" + id, arraySort(SRef, arraySort(ks, es))
 }
 
+// mapLen: len(m) as an uninterpreted function of the map's presence set.
+func (e *Enc) mapLen(st *State, mt *types.Map, m Term) Term {
+	pn, ps, _, _ := e.mapHeaps(mt)
+	fn := "maplen_" + e.sortID(arrayElem(ps))
+	e.predeclare(fn, fmt.Sprintf("(declare-fun %s (%s) (_ BitVec 64))", fn, arrayElem(ps)))
+	return app(SBV64, fn, sel(e.heap(st, pn, ps), m))
+}
+
 func (f *Frame) lookup(x *ssa.Lookup) Value {
 	e := f.e
 	name := f.name(x.Name())
